@@ -109,6 +109,15 @@ func NewFQState(t0 int64, nPre int) *FQState {
 	return s
 }
 
+// ZeroTimeUnix is what Expiry().Unix() gives for a quote whose expiry was never set.
+const ZeroTimeUnix = -62135596800
+
+// Blank turns pre-existing quote i into the zero value (&bt.FeeQuote{}): no fees, no expiry (set-up only).
+func (s *FQState) Blank(i int) {
+	s.Quotes[i] = fqQuote{fees: map[string]int{}, expiry: ZeroTimeUnix}
+	s.key = ""
+}
+
 // AddFresh registers a miner with a quote created inside the FeeQuotes object (set-up only).
 func (s *FQState) AddFresh(miner string) {
 	s.Quotes[s.Next] = fqQuote{fees: map[string]int{"standard": DefaultFee, "data": DefaultFee}, expiry: s.Clock}
@@ -341,7 +350,7 @@ func ExpiredExplained(h []Interval, initExpiry, initClock int64) string {
 // restored document) stored, and that write had been invoked before the read returned; "no such miner" needs the
 // miner not to have been registered before the call began (miners are never removed); "no such fee type" needs a
 // restore that drops the type. minersAtStart are the miners registered before the tasks started.
-func SFeeExplained(h []Interval, minersAtStart map[string]bool) string {
+func SFeeExplained(h []Interval, minersAtStart map[string]bool, blankQuotes bool) string {
 	for _, op := range h {
 		if op.In.Kind != "SFee" {
 			continue
@@ -381,7 +390,7 @@ func SFeeExplained(h []Interval, minersAtStart map[string]bool) string {
 				return fmt.Sprintf("FeeQuotes.Fee(%s,%s) over [%d..%d] says the miner has no quotes, but it was registered before the call began and miners are never removed", op.In.Miner, op.In.Type, op.Call, op.Ret)
 			}
 		case op.Out.Err == ErrTypeMissing:
-			ok := false
+			ok := blankQuotes // quotes that start out as the zero value have no fee types until a document is restored
 			for _, w := range h {
 				if w.In.Kind == "QUnmarshal" && w.In.DocOK && w.Call < op.Ret {
 					if _, has := w.In.Doc[op.In.Type]; !has {
